@@ -38,16 +38,16 @@ PROFILES = {
     'mirror-idle': dict(BASE, verboseMethods=1, logAnswers=1, structDump=1, pIssue=2, maxBatch=1, pGuardCancel=0, pGuardIssue=0, wQuery=0, wReact=0, wImmediate=1, wReset=0, wExitEnter=0),
     'mirror-plans': dict(BASE, verboseMethods=1, logAnswers=1, structDump=1, planDump=1, wPlanEdit=3, wExtStatus=2, pSucceed=150, pFail=40, pHeadStatus=50, pGuardCancel=40, pGuardIssue=20, pIssue=15, maxBatch=1),
     'burst':     dict(BASE, wOverlong=30, maxBatch=14, pIssue=300, pGuardIssue=500, pGuardCancel=120, wSaveLoad=10, wPlanEdit=3, wExtStatus=1, pSucceed=150, pFail=30, pPlanInCb=300, planDump=0, wReset=1, wExitEnter=1, wRecreate=10),
-    'alloc':     dict(BASE, _nolog=1, _extra='-DVH_ALLOC_HOOK', _flavours=['gcc', 'clang'], pendq=0, wSaveLoad=10, wPlanEdit=3, wExtStatus=1, pSucceed=100, pFail=20, pPlanInCb=100, wReset=1, wExitEnter=1, maxBatch=10, pIssue=100, pGuardIssue=200),
+    'alloc':     dict(BASE, _nolog=1, _extra='-DVH_ALLOC_HOOK', _flavours=['gcc', 'clang'], _every=2, _phase=0, pendq=0, wSaveLoad=10, wPlanEdit=3, wExtStatus=1, pSucceed=100, pFail=20, pPlanInCb=100, wReset=1, wExitEnter=1, maxBatch=10, pIssue=100, pGuardIssue=200),
     'ordinary':  dict(BASE, wOverlong=10, wSaveLoad=8, wPlanEdit=2, wExtStatus=1, pSucceed=80, pFail=20, pPlanInCb=40, wReset=1, wExitEnter=1, wRecreate=5, replica=0),
     'copies':    dict(BASE, copies=40, pIssue=0, pGuardCancel=0, pGuardIssue=0, maxBatch=3, wReset=1, wExitEnter=1, wImmediate=3),
     'c15-core':  dict(BASE, kinds=0x4f, pGuardIssue=0, pGuardCancel=80, pIssue=40, maxBatch=3, pendq=0, wReset=1, wExitEnter=1, wQuery=1, pConsume=40, wfEvery=0),
     'c15-utility': dict(BASE, kinds=0x7f, pGuardIssue=0, pGuardCancel=80, pIssue=40, maxBatch=3, pendq=0, wReset=1, wExitEnter=1, wQuery=1, pConsume=40, wfEvery=0),
-    'c15-plans': dict(BASE, kinds=0x4f, pGuardIssue=0, pGuardCancel=60, pIssue=20, maxBatch=2, pendq=0, wReset=1, wExitEnter=1, wQuery=1, pConsume=30, wfEvery=0, wPlanEdit=4, wExtStatus=2, pSucceed=180, pFail=40, pPlanInCb=40, pHeadStatus=60),
+    'c15-plans': dict(BASE, kinds=0x4f, pGuardIssue=0, pGuardCancel=60, pIssue=20, maxBatch=2, pendq=0, wReset=1, wExitEnter=3, wQuery=1, pConsume=30, wfEvery=0, wPlanEdit=4, wExtStatus=2, pSucceed=180, pFail=40, pPlanInCb=40, pHeadStatus=60),
     'payload-plans': dict(BASE, planDump=1, wPlanEdit=5, wExtStatus=2, pSucceed=300, pFail=20, pPlanInCb=60, pGuardCancel=30, pGuardIssue=20, pIssue=15, maxBatch=2, pNoPayload=350, kinds=0x7f),
     'payload':   dict(BASE, pGuardCancel=60, pGuardIssue=100, pIssue=80, maxBatch=4, pNoPayload=200),
 }
-PROFILES['memcheck'] = dict(PROFILES['burst'], _flavours=['gcc-vg'])      # valgrind memcheck: uninitialised reads, which ASan/UBSan do not see
+PROFILES['memcheck'] = dict(PROFILES['burst'], _flavours=['gcc-vg'], _every=2, _phase=1)      # valgrind memcheck: uninitialised reads, which ASan/UBSan do not see
 
 # property -> engine configuration
 SHAPE_PROPS = {
@@ -190,11 +190,17 @@ def shape_engine(prop, tier, seed, keep=False):
         # payload types: int, 24-byte POD with odd tail, over-aligned 64-byte struct, 1-byte enum
         for i, sj in enumerate(shapeset): sj['cfg']['payload'] = ['int', 'pod24', 'big64', 'tiny'][i % 4]
     t0 = time.time()
+    # a profile may ask for every n-th shape only (quick tier; expensive builds): _every / _phase
+    def takes(P, idx): return tier != 'quick' or idx % P.get('_every', 1) == P.get('_phase', 0) % P.get('_every', 1)
+    order = {sj['name']: i for i, sj in enumerate(shapeset)}
     wanted = set()
     for profile in conf['profiles']:
         P = PROFILES[profile]
-        for fl in P.get('_flavours', flavours): wanted.add((fl, P.get('_extra', '')))
-    builds = vlib.pmap(build_job, [(sj, fl, ex) for sj in shapeset for fl, ex in sorted(wanted)])
+        for i, sj in enumerate(shapeset):
+            if not takes(P, i): continue
+            for fl in P.get('_flavours', flavours): wanted.add((sj['name'], fl, P.get('_extra', '')))
+    byname = {sj['name']: sj for sj in shapeset}
+    builds = vlib.pmap(build_job, [(byname[nm], fl, ex) for nm, fl, ex in sorted(wanted)])
     tb = time.time() - t0
     ok = {}
     for sj, fl, ex, binp, out in builds:
@@ -206,6 +212,7 @@ def shape_engine(prop, tier, seed, keep=False):
       P = PROFILES[profile]
       for (nm, fl, ex), (sj, binp) in sorted(ok.items()):
         if ex != P.get('_extra', '') or fl not in P.get('_flavours', flavours): continue
+        if not takes(P, order[nm]): continue
         if P.get('planDump') and sj['cfg'].get('payload') == 'tiny': continue      # one-byte payloads cannot tell tasks apart (ids modulo 256): plans are followed with the wider types only
         if True:
             for si in range(T['seeds']):
@@ -522,7 +529,7 @@ def c15_engine(prop, tier, seed):
             cfgs = configs_full if (tier == 'thorough' and si < 2) else configs
             rseed = seed * 131 + si + 1
             for c in cfgs:
-                for opts in ({}, {'nopayload': 1}) if (si % 2 == 0) else ({},):
+                for opts in ({}, {'nopayload': 1}) if (si % 2 == 0 or fam['name'] == 'plans') else ({},):
                     label = '%s|%s|%s' % (''.join(str(b) for b in c[0]), LOGMODES[c[1]] or '-', 'void' if opts.get('nopayload') else 'int')
                     jobs.append((sj, 'clang', c15_defs(c, opts), True, label, rseed, T['steps'], fam['profile']))
             # config options and build axes on the all-on configuration
